@@ -839,8 +839,8 @@ package scipipe
 //@   loop 0 invariant range: 0 <= $i && $i <= len(placeHolderMatches) && len(placeHolderInfos) == $i
 //@   loop 0 invariant parse: forall j int :: 0 <= j && j < $i ==> allocated(placeHolderInfos[j]) && placeHolderInfos[j].match == placeHolderMatches[j][0] && placeHolderInfos[j].portName == splitOf(placeHolderMatches[j][2], "|")[0] && len(placeHolderInfos[j].modifiers) == len(splitOf(placeHolderMatches[j][2], "|")) - 1 && (forall k int :: 0 <= k && k < len(placeHolderInfos[j].modifiers) ==> placeHolderInfos[j].modifiers[k] == splitOf(placeHolderMatches[j][2], "|")[k + 1])
 //@   loop 1 invariant parsed: forall j int :: 0 <= j && j < len(placeHolderInfos) ==> placeHolderInfos[j] != nil && placeHolderInfos[j].match == placeHolderMatches[j][0] && placeHolderInfos[j].portName == splitOf(placeHolderMatches[j][2], "|")[0] && (forall k int :: 0 <= k && k < len(placeHolderInfos[j].modifiers) ==> placeHolderInfos[j].modifiers[k] == splitOf(placeHolderMatches[j][2], "|")[k + 1])
-//@   loop 2 invariant range: 0 <= $i && $i <= len(subStreamIPs[portName]) && len(paths) == $i
-//@   loop 2 invariant joined: forall j int :: 0 <= j && j < $i ==> paths[j] == prependOf(applyMods(subStreamIPs[portName][j].path, placeHolder.modifiers))
+//@   loop 2 invariant range[C15,C18]: 0 <= $i && $i <= len(subStreamIPs[portName]) && len(paths) == $i
+//@   loop 2 invariant joined[C15,C18]: forall j int :: 0 <= j && j < $i ==> paths[j] == prependOf(applyMods(subStreamIPs[portName][j].path, placeHolder.modifiers))
 
 // process.go initPortsFromCmdPattern (C18): the join separator of a placeholder part "join:SEP" is SEP, all of it.
 // (The parts are the |-separated pieces of a placeholder body, which contains neither braces nor bars: that is the
